@@ -48,6 +48,8 @@ type Scn struct {
 	// Second "loose": a second throttle handler follows in the same route with limits of the
 	// same kinds, a thousand times looser - the first handler's envelope must still hold
 	Second string `json:"second,omitempty"`
+	// CallPts: a connection may also be preempted between two calls to the (shared) limiter
+	CallPts bool `json:"call_points,omitempty"`
 }
 
 func throttleConfig(sc *Scn) map[string]any {
@@ -161,6 +163,10 @@ func execute(x *explore.Exec, sc *Scn) *result {
 	if os.Getenv("VERIF_TRACE") != "" {
 		trace = func(l string) { fmt.Printf("  | %8.3fs %s\n", float64(vsched.NowNS())/1e9, l) }
 	}
+	// the handler-wide limiter is shared by the connections: with two of them a connection may
+	// be preempted between two calls to it
+	vsched.CallPoints = sc.CallPts
+	defer func() { vsched.CallPoints = false }()
 	res.out = vsched.Run(x, vsched.Options{Horizon: 30000, Trace: trace}, func() {
 		ctx, cancel := caddy.NewContext(caddy.Context{Context: context.Background()})
 		defer cancel()
@@ -351,6 +357,18 @@ func scenarios(tier string, yield func(any) bool) {
 				if !yield(&Scn{Rate: p.rate, Burst: p.burst, TotalRate: t.rate, TotalBurst: t.burst, Size: sz, Buf: 64, Supply: "all", Conns: 1, Form: "caddyfile"}) {
 					return
 				}
+			}
+		}
+	}
+	// two connections under a handler-wide limit, preemptible between any two calls to the
+	// limiter they share (a check followed by a take is not atomic)
+	for _, t := range tot {
+		if t.rate == 0 {
+			continue
+		}
+		for _, buf := range []int{5, 64} {
+			if !yield(&Scn{TotalRate: t.rate, TotalBurst: t.burst, Size: 3, Buf: buf, Supply: "all", Conns: 2, CallPts: true}) {
+				return
 			}
 		}
 	}
